@@ -86,28 +86,40 @@ def gen_conv_cases(rng, tier, space, channel, signed_bcoh=False, force_pos=False
             y = values(rng, n, vk)
             dk, dy = uncert(rng, n)
             m = material(rng, signed_bcoh)
+            # integer-typed arrays with the same values must behave like floating ones
+            idt = [False, False, False]
+            if vk == "ints" and rng.random() < 0.7:
+                idt[1] = True
+                if rng.random() < 0.5:
+                    x = [float(rng.randint(0, 9)) if force_pos is False else float(rng.randint(1, 9)) for _ in range(n)]
+                    gk = "intgrid"
+                    idt[0] = True
+                if dy is not None and rng.random() < 0.5:
+                    dy = [float(rng.randint(0, 5)) for _ in range(n)]
+                    dk = "ints"
+                    idt[2] = True
             cases.append({
-                "space": space, "X": a, "Y": b, "x": x, "y": y, "dy": dy, "mat": m, "channel": channel,
+                "space": space, "X": a, "Y": b, "x": x, "y": y, "dy": dy, "mat": m, "channel": channel, "int_dtype": idt,
                 "desc": {"method": "%s_to_%s" % (names[a], names[b]), "n": n, "grid": gk, "values": vk,
-                         "dy": dk, "has_zero": any(v == 0 for v in x), "has_neg": any(v < 0 for v in x),
+                         "dy": dk, "has_zero": any(v == 0 for v in x), "has_neg": any(v < 0 for v in x), "int_arrays": "".join("1" if t else "0" for t in idt),
                          "bcoh_neg": m["bcoh"] < 0},
             })
     return cases
 
 
-def call_conv(pystog, space, a, b, x, y, dy, m):
+def call_conv(pystog, space, a, b, x, y, dy, m, idt=(False, False, False)):
     names = RN if space == 0 else GN
     cv = pystog.Converter()
     f = getattr(cv, "%s_to_%s" % (names[a], names[b]))
-    x = np.array(x, dtype=float)
-    y = np.array(y, dtype=float)
-    d = None if dy is None else np.array(dy, dtype=float)
+    x = np.array(x, dtype=np.int64 if idt[0] else float)
+    y = np.array(y, dtype=np.int64 if idt[1] else float)
+    d = None if dy is None else np.array(dy, dtype=np.int64 if idt[2] else float)
     v, e = f(x, y, d, **kwargs_of(m))
     return v, e
 
 
 def run_conv(pystog, case):
-    v, e = call_conv(pystog, case["space"], case["X"], case["Y"], case["x"], case["y"], case["dy"], case["mat"])
+    v, e = call_conv(pystog, case["space"], case["X"], case["Y"], case["x"], case["y"], case["dy"], case["mat"], case.get("int_dtype", (False, False, False)))
     return {"val": None if v is None else [float(t) for t in np.asarray(v, dtype=float)],
             "err": None if e is None else [float(t) for t in np.asarray(e, dtype=float)]}
 
